@@ -131,6 +131,18 @@ pub fn check_f64(rep: &mut Report, bits: u64) {
         Ok(y) if y.to_bits() == bits => {}
         _ => fail(rep, "decode::<f64>", "f64", bits, "typed decode differs".into()),
     }
+    // the serde front end is an accessor like the others: exact at equal width, and a double is
+    // never narrowed into an f32 target
+    match minicbor_serde::from_slice::<f64>(&out) {
+        Ok(y) if y.to_bits() == bits => {}
+        r => fail(rep, "serde f64(double item)", "f64", bits, format!("got {:?}", r.map(|y| format!("{:016x}", y.to_bits())).map_err(|e| e.to_string()))),
+    }
+    if let Ok(y) = minicbor_serde::from_slice::<f32>(&out) {
+        fail(rep, "serde f32(double item)", "f64", bits, format!("a wider float was accepted by the narrower accessor: {:?}", y));
+    }
+    if let Ok(y) = minicbor_serde::from_slice::<(f32,)>(&[&[0x81][..], &out[..]].concat()) {
+        fail(rep, "serde (f32,)(double item)", "f64", bits, format!("a wider float was accepted by the narrower accessor: {:?}", y));
+    }
 }
 
 /// One array of floats of mixed widths read through the narrower (f32) element type.
